@@ -16,14 +16,20 @@ RULE = ('case = project (2-3 generated Fortran files, enrichment mode plain|defs
         'counterpart is attached to in u, never to a scope owned by u; symbol-table contents and resolved types equal; snapshot of u '
         'unchanged by pickling; u3 = loads(dumps(u2)) equals u2 in all of the above. Symbols that u resolves through its (unpickled) '
         'parent are exempt from the scope/type comparison (the parent link is dropped by design). '
+        'Only the most specific failing comparison of a round trip is reported. '
         'non-trivial = target owns >= 2 scopes or the project is enriched (defs/enrich) and the target imports or calls resolved '
         'symbols; distinct by hash of the case')
 ASSUMPTIONS = ['the independent walk (lokiverif.irtree.walk over dataclass fields) reaches every expression of the generated subset',
-               'symbol-table contents are compared through lokiverif.irdump.dump_type (dtype name, kind, shape, intent, ... as text)',
-               'generator flags for listed known findings are off in the main stream (PRINT statements, real(x, 8) conversions, '
-               'derived-type names in ONLY lists of resolved imports, resolved procedure imports compared by ==); their triggers live in replays/C18']
-SHARDS = {'quick': 12, 'thorough': 16}
-BUDGET = {'quick': 55, 'thorough': 1200}
+               'symbol-table contents are compared through lokiverif.irdump.dump_type (dtype name, kind, shape, intent, ... as text); '
+               'shape=() counts as no shape; entries and scopes of intrinsic procedure names are not compared',
+               'a unit that is pickled without its parent (module procedure, member) is exempt from ==, and from scope/type comparison of '
+               'the symbols it resolves through that parent (the parent link is dropped by design)',
+               'a symbol attached to another scope of the unpickled unit with the same type is accepted (counted)',
+               'the trigger of a listed root cause (known_findings.d/C18.txt) is generated / judged only once its fixed probe '
+               '(lokiverif.unitobs.known_defects) no longer reproduces it on the tree under test; until then it lives in replays/C18 '
+               'and the avoided draws are counted under excluded_by_construction']
+SHARDS = {'quick': 16, 'thorough': 16}
+BUDGET = {'quick': 50, 'thorough': 1200}
 
 _FLAGS = None
 
@@ -358,6 +364,12 @@ def check_case(case, ctx):
 
 
 def run_shard(ctx):
+    import time
+    import loki  # noqa: F401  (imported before the clock starts)
+    from loki.transformations.utilities import rename_variables  # noqa: F401
+    flags()
+    # the budget is exploration time: under load importing loki and the probes alone can take most of a minute
+    ctx.t0 = time.time()
     for k, v in sorted(U.known_defects().items()):
         ctx.extra[f'listed_root_cause_present:{k}'] = int(v) if ctx.shard == 0 else 0
     total = ctx.scale(1200, 20000)
